@@ -281,7 +281,16 @@ func (st *State) addressOf(e ast.Expr) Val {
 				base := st.eval(x.X)
 				st.obligeNonNil(base, x.Pos(), exprStr(x.X))
 				_, structT := structOf(bt)
-				return Val{K: KPtrElem, T: types.NewPointer(sel.Obj().Type()), S: sel.Obj().Name(), Sub: []Val{base}, Obj: nil, Sort: "field", Fn: nil}.withStruct(structT)
+				if base.K == KInt {
+					return Val{K: KPtrElem, T: types.NewPointer(sel.Obj().Type()), S: sel.Obj().Name(), Sub: []Val{base}, Obj: nil, Sort: "field", Fn: nil}.withStruct(structT)
+				}
+				// field of a derived pointer (&slice[i].f, &(*localptr).f): pointer = (inner pointer, field index)
+				return Val{K: KPtrElem, T: types.NewPointer(sel.Obj().Type()), S: sel.Obj().Name(), Sub: []Val{base, vInt(sInt(int64(sel.Index()[0])), nil)}, Sort: "fieldof"}
+			}
+			if _, isStruct := bt.Underlying().(*types.Struct); isStruct && len(sel.Index()) == 1 {
+				// &x.f for an addressable struct x: pointer into x
+				inner := st.addressOf(x.X)
+				return Val{K: KPtrElem, T: types.NewPointer(sel.Obj().Type()), S: sel.Obj().Name(), Sub: []Val{inner, vInt(sInt(int64(sel.Index()[0])), nil)}, Sort: "fieldof"}
 			}
 		}
 	}
@@ -311,7 +320,12 @@ func (st *State) deref(p Val, pos token.Pos, what string) Val {
 	case KPtrElem:
 		if p.Sort == "field" {
 			structT := p.Sub[1].T
-			return st.loadField(nil, p.Sub[0].S, structT, p.S)
+			return st.named(st.loadField(nil, p.Sub[0].S, structT, p.S), p.S)
+		}
+		if p.Sort == "fieldof" {
+			inner := st.deref(p.Sub[0], pos, what)
+			k, _ := isNum(p.Sub[1].S)
+			return inner.Sub[k.Int64()]
 		}
 		v := st.loadElem(nil, p.Sub[0], p.Sub[1].S)
 		return st.named(v, "elem")
@@ -331,6 +345,15 @@ func (st *State) storeThrough(p Val, v Val, pos token.Pos, what string) {
 	case KPtrElem:
 		if p.Sort == "field" {
 			st.storeField(p.Sub[0].S, p.Sub[1].T, p.S, v)
+			return
+		}
+		if p.Sort == "fieldof" {
+			inner := st.deref(p.Sub[0], pos, what)
+			k, _ := isNum(p.Sub[1].S)
+			nv := inner
+			nv.Sub = append([]Val(nil), inner.Sub...)
+			nv.Sub[k.Int64()] = v
+			st.storeThrough(p.Sub[0], nv, pos, what)
 			return
 		}
 		st.storeElem(p.Sub[0], p.Sub[1].S, v)
@@ -788,6 +811,9 @@ func (st *State) divmod(op, a, b string, signed bool) string {
 		}
 		return sNum(m)
 	}
+	if !ok2 {
+		st.modFacts(a, b)
+	}
 	if !signed {
 		if op == "/" {
 			return sApp("div", a, b)
@@ -886,7 +912,17 @@ func (st *State) bitop(op, a, b string, bits uint, signed bool, what string) str
 		st.fc.noteAssumption("bitwise " + op + " on signed non-constant operands is uninterpreted in " + what)
 		return st.fc.V.bitFun(st.fc, op, 0, a, b)
 	}
-	return st.fc.V.bitFun(st.fc, op, bits, a, b)
+	t := st.fc.V.bitFun(st.fc, op, bits, a, b)
+	if op == "&" && bits > 16 && !strings.Contains(a+b, "g_q") {
+		// arithmetic facts about masking (true for all non-negative a, b):
+		//   b+1 a power of two  =>  a & b = a mod (b+1)
+		//   b = a-1, a > 0      =>  (a & b = 0  <=>  a is a power of two)
+		st.fc.V.ispow2Prelude()
+		st.facts = st.facts.push(sImp(sApp("g_ispow2", sAdd(b, "1")), sEq(t, sApp("mod", a, sAdd(b, "1")))))
+		st.facts = st.facts.push(sImp(sAnd(sEq(b, sSub(a, "1")), sCmp(">", a, "0")), sEq(sEq(t, "0"), sApp("g_ispow2", a))))
+		st.fc.noteAssumption("x & m is related to x mod (m+1) for m+1 a power of two by an arithmetic fact added at each use (not bit-blasted)")
+	}
+	return t
 }
 
 func (st *State) shift(op string, a, b Val, t, bt types.Type, pos token.Pos, what string) Val {
@@ -1001,4 +1037,22 @@ func (st *State) convert(v Val, from, to types.Type, pos token.Pos, what string)
 		return v
 	}
 	panic(vcErr("unsupported conversion " + from.String() + " -> " + to.String() + " in " + what))
+}
+
+// modFacts adds true facts about division by a non-constant divisor (the solvers treat it as nonlinear):
+// for b > 0: 0 <= a mod b < b; a in [0,b) => a mod b = a, a div b = 0; a in [b,2b) => a mod b = a-b, a div b = 1.
+func (st *State) modFacts(a, b string) {
+	m := sApp("mod", a, b)
+	d := sApp("div", a, b)
+	pos := sCmp(">", b, "0")
+	f := sImp(pos, sAnd(
+		sCmp("<=", "0", m), sCmp("<", m, b),
+		sEq(a, sAdd(sMul(b, d), m)),
+		sImp(sAnd(sCmp("<=", "0", a), sCmp("<", a, b)), sAnd(sEq(m, a), sEq(d, "0"))),
+		sImp(sAnd(sCmp("<=", b, a), sCmp("<", a, sMul("2", b))), sAnd(sEq(m, sSub(a, b)), sEq(d, "1"))),
+	))
+	if strings.Contains(a, "g_q") || strings.Contains(b, "g_q") || strings.Contains(a, "g_abs") || strings.Contains(a, "g_l_") || strings.Contains(a, "g_ih_") {
+		return // inside a quantifier: bound variables cannot be mentioned in path facts
+	}
+	st.facts = st.facts.push(f)
 }
